@@ -67,8 +67,14 @@ def strip_docstrings(node):
 
 def _find(body: List[ast.stmt], parts: List[str]):
     name = parts[0]
+    role = None
+    if '@' in name:                      # 'values@setter': the function decorated with @values.setter
+        name, role = name.split('@', 1)
     for st in body:
         if isinstance(st, (ast.FunctionDef, ast.ClassDef, ast.AsyncFunctionDef)) and st.name == name:
+            if role is not None and not any(isinstance(d, ast.Attribute) and d.attr == role and isinstance(d.value, ast.Name) and d.value.id == name
+                                            for d in getattr(st, 'decorator_list', [])):
+                continue
             if len(parts) == 1:
                 return st
             return _find(st.body, parts[1:])
@@ -96,6 +102,10 @@ def get_function(qualname: str) -> FuncInfo:
     owner = None
     real = None
     obj: Any = module
+    role = None
+    if '@' in rest[-1]:
+        role = rest[-1].split('@', 1)[1]
+        rest = rest[:-1] + [rest[-1].split('@', 1)[0]]
     try:
         for p in rest:
             prev = obj
@@ -116,7 +126,7 @@ def get_function(qualname: str) -> FuncInfo:
     if isinstance(real, (staticmethod, classmethod)):
         real = real.__func__
     if isinstance(real, property):
-        real = real.fget
+        real = {'setter': real.fset, 'deleter': real.fdel}.get(role, real.fget)
     return FuncInfo(node, module, qualname, owner=owner, real=real, path=path)
 
 
